@@ -3,9 +3,11 @@ package simrt
 import (
 	"fmt"
 	"math/rand"
+	"runtime"
 	"runtime/debug"
 	"reflect"
 	"sort"
+	"strings"
 	"sync"
 	"time"
 	"unsafe"
@@ -340,7 +342,18 @@ func MapKeys[M ~map[K]V, K comparable, V any](m M) []K {
 }
 
 // OrderKeys sorts (and optionally permutes) a key slice; it replaces maps.Keys / ToSlice results.
+// TraceOrder (diagnosis): print every OrderKeys call with its caller.
+var TraceOrder = false
+
 func OrderKeys[K any](keys []K) []K {
+	if TraceOrder {
+		_, f1, l1, _ := runtime.Caller(1)
+		_, f2, l2, _ := runtime.Caller(2)
+		println("ORDERKEYS", len(keys), f1, l1, f2, l2)
+		if strings.Contains(f2, "table_catalog") {
+			println(string(debug.Stack()))
+		}
+	}
 	sort.SliceStable(keys, func(i, j int) bool { return lessAny(keys[i], keys[j]) })
 	streamMu.Lock()
 	if mapPermute && len(keys) > 1 {
@@ -350,6 +363,9 @@ func OrderKeys[K any](keys []K) []K {
 		}
 	}
 	streamMu.Unlock()
+	if TraceOrder {
+		println("ORDERRESULT", fmt.Sprint(keys))
+	}
 	return keys
 }
 
